@@ -9,7 +9,7 @@ Kept verbatim from the real file on every run (executable text unchanged):
   * nested `fn can_not_overflow(radix: u8, digits_len: usize) -> bool { .. }`   (whole body)
   * nested `const fn to_digit(input: u8, radix: u8) -> Option<u8> { .. }`       (whole body)
   * the guard expression of `let result = if <GUARD> {`                           (inside `guarded_u64_path`)
-  * the initialiser `let mut result = 0;` and every statement of the body of the first `for c in src { .. }`
+  * the initialiser `let mut result = 0;` (also `0u64` / `: u64`) and every statement of the body of the first `for c in src { .. }`
 Rewritten mechanically (nothing else):
   * `-> T` in the two signatures becomes `-> (r: T)` followed by the contract from this file;
   * `debug_assert!(C, "msg")` becomes the proof obligation `assert(C);` (so "the debug assertion cannot fire" is proved);
@@ -98,13 +98,23 @@ proof fn lemma_pow_base_mono(a: int, b: int, e: nat)
         assert(0 < a * pow(a, (e - 1) as nat)) by (nonlinear_arith) requires 0 < a, 0 < pow(a, (e - 1) as nat);
     }
 }
+proof fn lemma_pow_le(r: int, i: nat, rmax: int, imax: nat)
+    requires 1 <= r <= rmax, i <= imax
+    ensures pow(r, i) <= pow(rmax, imax)
+{
+    lemma_pow_increases(rmax as nat, i, imax);
+    lemma_pow_base_mono(r, rmax, i);
+}
+// radix^len <= 2^64 for the (radix, length) boxes a sound guard can be built from
 proof fn lemma_pow16(r: int, i: nat)
-    requires 1 <= r <= 16, i <= 16
+    requires 1 <= r, (r <= 2 && i <= 64) || (r <= 4 && i <= 32) || (r <= 10 && i <= 19) || (r <= 16 && i <= 16) || (r <= 36 && i <= 12)
     ensures pow(r, i) <= two64()
 {
-    lemma_pow_increases(16, i, 16);
-    lemma_pow_base_mono(r, 16, i);
-    assert(pow(16, 16) == 0x1_0000_0000_0000_0000) by (compute);
+    if r <= 2 && i <= 64 { lemma_pow_le(r, i, 2, 64); assert(pow(2, 64) <= 0x1_0000_0000_0000_0000) by (compute); }
+    else if r <= 4 && i <= 32 { lemma_pow_le(r, i, 4, 32); assert(pow(4, 32) <= 0x1_0000_0000_0000_0000) by (compute); }
+    else if r <= 10 && i <= 19 { lemma_pow_le(r, i, 10, 19); assert(pow(10, 19) <= 0x1_0000_0000_0000_0000) by (compute); }
+    else if r <= 16 && i <= 16 { lemma_pow_le(r, i, 16, 16); assert(pow(16, 16) <= 0x1_0000_0000_0000_0000) by (compute); }
+    else { lemma_pow_le(r, i, 36, 12); assert(pow(36, 12) <= 0x1_0000_0000_0000_0000) by (compute); }
 }
 proof fn lemma_prefix_none(s: Seq<u8>, k: int, radix: u8)
     requires 0 <= k <= s.len()
@@ -137,7 +147,8 @@ proof fn lemma_step(v: int, r: int, i: nat, n: nat)
 CONTRACT_CNO = """
     ensures r && radix >= 1 ==> pow(radix as int, digits_len as nat) <= two64()   // the guard's meaning: radix^len fits u64
 """
-HINT_CNO = "    proof { if 1 <= radix <= 16 && digits_len <= 16 { lemma_pow16(radix as int, digits_len as nat); } }\n"
+HINT_CNO = ("    proof { let ghost (r, i) = (radix as int, digits_len as nat);\n"
+            "            if 1 <= r && ((r <= 2 && i <= 64) || (r <= 4 && i <= 32) || (r <= 10 && i <= 19) || (r <= 16 && i <= 16) || (r <= 36 && i <= 12)) { lemma_pow16(r, i); } }\n")
 CONTRACT_TD = """
     requires 2 <= radix <= 36
     ensures r == s_digit(input, radix)
@@ -241,7 +252,8 @@ def main(repo, out):
     td = "const fn to_digit(input: u8, radix: u8) -> (r: Option<u8>)" + CONTRACT_TD + "{\n" + td_body + "\n}\n"
 
     # --- the u64 branch
-    m3 = re.search(r"let result = if (.+?) \{\s*(let mut result = 0;)\s*for c in src \{", body, re.S)
+    body = strip_comments(body)
+    m3 = re.search(r"let result = if ([^{}]+?) \{\s*(let mut result(?:: u64)? = 0(?:u64|_u64)?;)\s*for c in src \{", body, re.S)
     if not m3:
         return lost("`let result = if <guard> { let mut result = 0; for c in src {`")
     guard, init = " ".join(m3.group(1).split()), m3.group(2)
